@@ -71,9 +71,40 @@ class SymNP(types.ModuleType):
 
     @staticmethod
     def array(x, *a, **k):
-        if isinstance(x, AMat):
+        if isinstance(x, AMat) or type(x).__name__ == "IArr":
             return x
         return np.array(x, *a, **k)
+
+    @staticmethod
+    def tril(x, k=0):
+        if type(x).__name__ == "IArr":
+            from vcgen.idx import IArr, Ent
+            return IArr(x.shape, lambda r, c: [Ent(e.conds + [c - r <= k], e.val, e.sums, e.zf) for e in x.fn(r, c)], x.dtype)
+        return np.tril(x, k)
+
+    @staticmethod
+    def triu(x, k=0):
+        if type(x).__name__ == "IArr":
+            from vcgen.idx import IArr, Ent
+            return IArr(x.shape, lambda r, c: [Ent(e.conds + [c - r >= k], e.val, e.sums, e.zf) for e in x.fn(r, c)], x.dtype)
+        return np.triu(x, k)
+
+    @staticmethod
+    def any(x, *a, **k):
+        if type(x).__name__ == "IArr":
+            # exists a non-zero entry: a Boolean b with  b <=> exists idx in range. x[idx] != 0
+            from vcgen.idx import ents_expr
+            from vcgen.proxy import SBool, iterm
+            ix = [z3.Int(f"any?{j}") for j in range(len(x.shape))]
+            rng = z3.And(*[z3.And(i_ >= 0, i_ < iterm(s_)) for i_, s_ in zip(ix, x.shape)])
+            ex = z3.Exists(ix, z3.And(rng, ents_expr(x.at(*ix)) != 0))
+            exs = z3.simplify(ex)
+            if z3.is_false(exs):
+                return False
+            b = z3.Bool(CTX.fresh("any_nonzero"))
+            CTX.assume(b == ex)
+            return SBool(b)
+        return np.any(x, *a, **k)
 
 
 SYMNP = SymNP()
